@@ -5,6 +5,7 @@
 package fixture
 
 import (
+	"bytes"
 	"context"
 	"errors"
 	"fmt"
@@ -41,6 +42,7 @@ type VConn struct {
 	Mailboxes         map[imap.MailboxID][]string
 	State             connector.IMAPState // handed over by gluon at Init
 	WideIDs           bool                // mailbox ids of fixed width (see CreateMailbox)
+	Dedup             bool                // CreateMessage answers with the id of a message that holds the same literal already
 	Messages          map[imap.MessageID]*VMsg
 	Visibility        map[imap.MailboxID]imap.MailboxVisibility
 
@@ -175,6 +177,15 @@ func (c *VConn) CreateMessage(_ context.Context, _ connector.IMAPStateWrite, mbo
 		return imap.Message{}, nil, err
 	}
 	var id imap.MessageID
+	if c.Dedup {
+		// a remote that identifies messages by their content: what it already holds is not created again
+		for eid, m := range c.Messages {
+			if bytes.Equal(m.Literal, literal) {
+				m.Boxes[mboxID] = true
+				return imap.Message{ID: eid, Flags: flags, Date: date}, literal, nil
+			}
+		}
+	}
 	if c.ReuseMsgID != "" {
 		id = c.ReuseMsgID
 		c.ReuseMsgID = ""
